@@ -6,8 +6,11 @@ lists of ints.  Nothing in the oracle imports or introspects the library.
 
 (a) decode   every declared value class x raw byte strings: from_list / check_raw /
              raw_to_value never raise and agree with the reference decoder, flags exactly
-             where the reference has them.  Complete for widths 1 and 2 (both tiers),
-             boundary set + strided 3-byte sweep + Hypothesis for wider values.  Strings: NUL and
+             where the reference has them.  Complete for widths 1 and 2 (both tiers; every class of that width -
+             the evidence lists the 2-byte ones), boundary set + strided 3-byte sweep + Hypothesis for wider values;
+             the boundary set holds, for EVERY byte position, each of 0x00 0x01 0x7f 0x80 0xfe 0xff between zeros,
+             between 0xff and between unremarkable bytes (a rule that belongs to one byte must not leak to another
+             position: ref_memory.edge_raws).  Strings: NUL and
              single bytes >= 0x80 at every position, and non-ASCII TEXT - well-formed UTF-8
              characters of 2, 3 and 4 bytes (and UTF-16/Latin-1/double-byte ones, and ill-formed
              look-alikes) at every position, full field / directly before / behind the NUL.
@@ -37,6 +40,14 @@ lists of ints.  Nothing in the oracle imports or introspects the library.
              refused (MemoryLocationOverlap), everything else is accepted; afterwards the bank's location map holds
              exactly the accepted values and no lockable location in a bank without lock byte.  Deterministic sweep
              (every position x every other access type, all type combinations up to 3 locations) + Hypothesis sequences.
+(g) edits    objects the caller edits afterwards: every value_to_raw(...) result (numbers, 'MASK', 'TMASK', strings) is
+             appended to (image = A.value_to_raw('TMASK'); image += B.value_to_raw(500)), and - when it is mutable -
+             overwritten, cleared, zero-filled, reversed in place; raw buffers handed IN (a bytearray to check_raw /
+             is_valid / raw_to_value, a list / bytearray bank image to from_list) are edited by the caller after the
+             call.  Afterwards the class - and the other classes of its bank - must decode and encode exactly as before
+             (check_raw / raw_to_value / from_list of the MASK and TMASK patterns and a few numbers, value_to_raw of
+             the literals and numbers).  Every library class, the signed ones declared here, a few declared by the
+             program.
 (b) inverse  raw_to_value(value_to_raw(x)) == x for plain numbers (table kind "uint"/"cct")
              over all in-range numbers (<= 2 bytes) or a sample, and for strings of every
              length 0..len.
@@ -54,7 +65,8 @@ ID = "C11"
 LEVEL = "exploration"
 RULE = ("(class, raw) pairs: complete enumeration of all byte strings for every 1- and 2-byte value "
         "(distinct by construction), boundary sets (all-ones, all-ones-1, min-1, min, max, max+1, sign "
-        "boundaries, every scale byte x value boundaries, NUL / 0x80+ at every string position and pair of "
+        "boundaries, each of 0x00 0x01 0x7f 0x80 0xfe 0xff at every byte position between zeros / 0xff / unremarkable bytes, "
+        "every scale byte x value boundaries, NUL / 0x80+ at every string position and pair of "
         "positions, well-formed 2-/3-/4-byte UTF-8 characters and other multi-byte encodings' characters at every "
         "string position - full field, directly before and behind the NUL - plus ill-formed look-alikes, generated "
         "non-ASCII text encoded as UTF-8 / Latin-1 / UTF-16), a strided sweep of 3-byte values and Hypothesis byte strings for wider ones; non-trivial "
@@ -67,7 +79,9 @@ RULE = ("(class, raw) pairs: complete enumeration of all byte strings for every 
         "instance of a bytes subclass; history: (declaration/import history in a fresh interpreter, value class, boundary byte string), "
         "non-trivial = the reference says MASK or TMASK; limits: (declaration with min_value / max_value, byte string), "
         "non-trivial as for decode; declare: (bank flags, sequence of declarations with per-location access types), "
-        "non-trivial = some declaration has to be refused or mixes access types")
+        "non-trivial = some declaration has to be refused or mixes access types; caller's edits: (value class, argument of "
+        "value_to_raw - 'MASK' / 'TMASK' / a number / a string - or byte string handed in as bytearray / list image) x the "
+        "in-place edits += / item assignment / clear / fill / reverse, non-trivial = a MASK / TMASK literal or a buffer handed in")
 ASSUMPTIONS = [
     "memory map and decoding rules are my hand transcription of IEC 62386-102 9.10.6/9.10.7 and DiiA "
     "251/252/253 (harness/ref_memory.py); the texts are not in the sandbox - rows marked 'pinned' or with "
@@ -101,6 +115,10 @@ ASSUMPTIONS = [
     "applies, either when both do; what a bank keeps of a REFUSED declaration is not judged except that no lockable "
     "location may be registered in a bank without lock byte: later declarations that touch the refused value's "
     "locations may be accepted or refused as overlapping; a value that lists one location twice is not generated",
+    "what value_to_raw returns and what the caller handed in are the caller's objects: editing them in place afterwards "
+    "(+=, item assignment, clear, slice assignment, reverse) must not change any later result of check_raw / raw_to_value / "
+    "from_list / value_to_raw of that class or of another class of the bank - 'interpretation' depends on the declaration and "
+    "the bytes only; the unchanged library returns immutable bytes everywhere and keeps no reference to its arguments",
     "signed MASK/TMASK patterns are exercised on values declared by the check itself (the library declares "
     "no signed value), using only the public declaration mechanism",
 ]
@@ -460,7 +478,7 @@ def string_boundaries(w):
     for fill in (0xFF, 0x7F, 0x01, 0x80):
         out.add(bytes([fill] * w))
     for p in range(w):
-        for b in (0x00, 0x01, 0x7F, 0x80, 0xFF):
+        for b in (0x00, 0x01, 0x7F, 0x80, 0xFE, 0xFF):
             for base in bases:
                 x = bytearray(base)
                 x[p] = b
@@ -528,14 +546,27 @@ def _multibyte_seqs():
 MULTIBYTE_SEQS = _multibyte_seqs()
 
 
+def _with_edges(raws, row):
+    """raws + the byte-position boundary patterns of the row (every edge byte at every position between zeros, 0xFF
+    and unremarkable bytes: harness.ref_memory.edge_raws), without repeats."""
+    seen = set(raws)
+    out = list(raws)
+    for p in RM.edge_raws(row):
+        b = bytes(p)
+        if b not in seen:
+            seen.add(b)
+            out.append(b)
+    return out
+
+
 def boundary_raws(row):
     w, kind = row["width"], row["kind"]
     if kind == "string":
         return string_boundaries(w)
     if kind == "scaled":
         bodies = number_boundaries(w - 1, row)
-        return [bytes([s]) + b for s in range(256) for b in bodies]
-    return number_boundaries(w, row)
+        return _with_edges([bytes([s]) + b for s in range(256) for b in bodies], row)
+    return _with_edges(number_boundaries(w, row), row)
 
 
 def image_choices(row):
@@ -1081,7 +1112,10 @@ def limit_specs(w, scaled=False):
 def _limit_raws(row):
     if row["width"] == 1:
         return [bytes([v]) for v in range(256)]
-    return image_choices(row) if row["kind"] == "scaled" else number_boundaries(row["width"], row)
+    raws = image_choices(row) if row["kind"] == "scaled" else number_boundaries(row["width"], row)
+    if row["min"] is None and row["max"] is None:       # declarations without limits: byte-position patterns as well
+        raws = _with_edges(raws, row)
+    return raws
 
 
 _BASES = ("num", "str", "bin", "fixed")
@@ -1287,6 +1321,230 @@ def userlim_strategy():
 
 
 
+# ------------------------------------------- (g) objects the caller edits afterwards ----
+# Decoding and encoding are functions of the declaration and the bytes alone.  A program owns what it gets back from
+# value_to_raw() and what it handed in: it may append to the returned buffer to assemble the image of consecutive
+# locations (image = A.value_to_raw('TMASK'); image += B.value_to_raw(500)), overwrite or clear it, and reuse the
+# bytearray it read into.  None of that may change what the class - or another class of the bank - recognises as
+# MASK / TMASK, decodes or encodes from then on.
+_ALIAS_EXTRA = b"\x00\x01\xf4"
+RESULT_EDITS = ("iadd", "setitem", "clear", "fill", "reverse")
+
+
+def _alias_probes(row):
+    """A few byte strings of the row's width: the MASK and TMASK patterns (signed and unsigned spelling), zero, one,
+    a plain number, the range edges."""
+    w, kind = row["width"], row["kind"]
+    if kind == "string":
+        return [bytes(w), b"A" * w, (b"Hello\x00" + bytes(w))[:w], bytes([0xFF] * w), bytes([0xFF] * (w - 1) + [0xFE])]
+    nb = w - 1 if kind == "scaled" else w
+    pre = b"\x00" if kind == "scaled" else b""
+    bodies = [RM.mask_pattern(nb, False), RM.tmask_pattern(nb, False), RM.mask_pattern(nb, True), RM.tmask_pattern(nb, True),
+              [0] * nb, [0] * (nb - 1) + [1], ([0x00, 0x01, 0xF4] * nb)[:nb], [0xFF] * (nb - 1) + [0xFD]]
+    for lim in (row["min"], row["max"]):
+        if lim is not None:
+            bodies.append(list((lim & ((1 << 8 * nb) - 1)).to_bytes(nb, "big")))
+    seen, out = set(), []
+    for b in bodies:
+        raw = pre + bytes(b)
+        if raw not in seen:
+            seen.add(raw)
+            out.append(raw)
+    return out
+
+
+def alias_args(row):
+    """What value_to_raw is asked to encode in section (g): the literals, a few numbers or strings."""
+    w, kind = row["width"], row["kind"]
+    if kind == "string":
+        return [["str", t] for t in dict.fromkeys(["", "A", "Hello"[:w], "x" * w, "x" * (w - 1)])]
+    args = [["lit", "TMASK"], ["lit", "MASK"]]
+    if _plain_number(row):
+        lo, hi = RM.valid_range(row)
+        nums = [x for x in dict.fromkeys([500, lo, hi, (lo + hi) // 2, 0, 1]) if lo <= x <= hi]
+    else:
+        nums = [0, 1]
+    return args + [["num", x] for x in nums[:4]]
+
+
+def _alias_value(arg):
+    if arg[0] == "num" and isinstance(arg[1], int) and not isinstance(arg[1], bool):
+        return arg[1]
+    if arg[0] in ("lit", "str") and isinstance(arg[1], str):
+        return arg[1]
+    raise ValueError("alias argument %r" % (arg,))
+
+
+def _obs(fn, *a):
+    """Comparable record of one call."""
+    try:
+        v = fn(*a)
+    except Exception as e:  # noqa: compared, not judged here (sections (a) / (b) judge what may raise)
+        return ("raised", type(e).__name__)
+    if isinstance(v, (bytes, bytearray)):
+        return (type(v).__name__ if type(v) in (bytes, bytearray) else "bytes-like", bytes(v).hex())
+    if isinstance(v, _lib()["location"].FlagValue):
+        return ("flag", v.name)
+    return (type(v).__name__, repr(v))
+
+
+def _behaviour(cls, row, siblings):
+    """What the class does right now: decode of the probes (check_raw, raw_to_value, from_list), encode of the
+    section's arguments; of the other classes of its bank: what they make of their own MASK / TMASK patterns."""
+    out = []
+    for raw in _alias_probes(row):
+        f = _obs(cls.check_raw, raw)
+        out.append(("check_raw", raw.hex(), f))
+        if f == ("NoneType", "None"):
+            out.append(("raw_to_value", raw.hex(), _obs(cls.raw_to_value, raw)))
+        img = [0] * 255
+        for loc, b in zip(cls.locations, raw):
+            img[loc.address] = b
+        out.append(("from_list", raw.hex(), _obs(cls.from_list, img)))
+    for arg in alias_args(row):
+        out.append(("value_to_raw", repr(arg[1]), _obs(cls.value_to_raw, _alias_value(arg))))
+    for scls, n, signed in siblings:
+        for pat in (RM.mask_pattern(n, signed), RM.tmask_pattern(n, signed)):
+            out.append((scls.__name__ + ".check_raw", bytes(pat).hex(), _obs(scls.check_raw, bytes(pat))))
+        for lit in ("MASK", "TMASK"):
+            out.append((scls.__name__ + ".value_to_raw", lit, _obs(scls.value_to_raw, lit)))
+    return out
+
+
+def _alias_siblings(key, cls):
+    """The other numeric value classes on the same bank object: (class, number of pattern bytes, signed)."""
+    out = []
+    if key is None:
+        return out
+    pool = _synthetic()["classes"] if key.startswith("SYN.") else _lib()["classes"]
+    for k, c in pool.items():
+        if c is cls or getattr(c, "bank", None) is not cls.bank:
+            continue
+        r = _resolve(k)[1]
+        if r is None or r["kind"] == "string" or len(c.locations) != r["width"]:
+            continue
+        out.append((c, r["width"] - (1 if r["kind"] == "scaled" else 0), r["signed"]))
+    return out
+
+
+def _mutable(obj):
+    return isinstance(obj, (bytearray, list)) or (not isinstance(obj, (bytes, str, tuple)) and hasattr(obj, "__setitem__"))
+
+
+def _edit(obj, how):
+    """Edit obj the way its owner might; returns the name the owner's variable is bound to afterwards."""
+    if how == "iadd":
+        obj += (list(_ALIAS_EXTRA) if isinstance(obj, list) else _ALIAS_EXTRA)    # in place for a bytearray, a new object for bytes
+        return obj
+    if not _mutable(obj):
+        return obj
+    if how == "setitem":
+        if len(obj):
+            obj[-1] = obj[-1] ^ 0x01
+            obj[0] = obj[0] ^ 0x80
+    elif how == "clear":
+        del obj[:]
+    elif how == "fill":
+        obj[:] = bytes(len(obj)) if not isinstance(obj, list) else [0] * len(obj)
+    elif how == "reverse":
+        obj.reverse()
+        if len(obj):
+            obj[0] = 0x00
+    else:
+        raise ValueError(how)
+    return obj
+
+
+def _first_diff(a, b):
+    for x, y in zip(a, b):
+        if x != y:
+            return "%s(%s) was %s %s, is now %s %s" % (x[0], x[1], x[2][0], x[2][1], y[2][0], y[2][1])
+    return "the number of observations changed"
+
+
+def _check_alias(cls, row, key, arg):
+    name = cls.__name__
+    sibs = _alias_siblings(key, cls)
+    base = _behaviour(cls, row, sibs)
+    how_decl = "" if key is not None else " (declared by the program)"
+    if arg[0] == "raw":
+        # buffers handed IN: the caller's bytearray / list, reused after the call
+        raw = bytes(arg[1])
+        if len(raw) != row["width"]:
+            raise ValueError("alias raw %r does not fit %s" % (arg, row["key"]))
+        plain = _obs(cls.check_raw, raw) == ("NoneType", "None")
+
+        def image(kind):
+            img = [0] * 255
+            for loc, b in zip(cls.locations, raw):
+                img[loc.address] = b
+            return img if kind == "list" else bytearray(img)
+        calls = [("check_raw", cls.check_raw, lambda: bytearray(raw)), ("is_valid", cls.is_valid, lambda: bytearray(raw)),
+                 ("from_list", cls.from_list, lambda: image("list")), ("from_list", cls.from_list, lambda: image("bytearray"))]
+        if plain:
+            calls.append(("raw_to_value", cls.raw_to_value, lambda: bytearray(raw)))
+        # one call, then the caller edits what it handed in, then everything is observed again (a later call of the
+        # class might replace what an earlier one kept)
+        for meth, fn, make in calls:
+            for how in RESULT_EDITS:
+                given = make()
+                _obs(fn, given)
+                _edit(given, how)
+                now = _behaviour(cls, row, sibs)
+                if now != base:
+                    return [("C11:raw-buffer-kept-by-class:" + name, "%s%s: %s was handed [%s] in a %s%s, then the caller "
+                             "edited that object of its own (%s); afterwards the class behaves differently: %s"
+                             % (name, how_decl, meth, _hex(raw), type(given).__name__,
+                                " holding the bank image" if meth == "from_list" else "", how, _first_diff(base, now)))]
+        return []
+    value = _alias_value(arg)
+    for how in RESULT_EDITS:
+        try:
+            r = cls.value_to_raw(value)
+        except Exception:  # noqa: not every value encodes everything (judged by (b) where the statement says so)
+            return []
+        if not isinstance(r, (bytes, bytearray, list, tuple)) and not _mutable(r):
+            return []
+        keep = bytes(r) if not isinstance(r, (list, tuple)) else None
+        mutable = _mutable(r)
+        if not mutable and how != "iadd":
+            continue
+        _edit(r, how)
+        now = _behaviour(cls, row, sibs)
+        if mutable and keep is not None:
+            r[:] = keep                # put the bytes back: a later case must not inherit this one's edit
+        if now != base:
+            return [("C11:encode-result-shares-class-state:" + name, "%s%s: after the caller edited the %s returned by "
+                     "value_to_raw(%r) in place (%s, e.g. image = A.value_to_raw(..); image += B.value_to_raw(..)) the class "
+                     "behaves differently: %s" % (name, how_decl, type(r).__name__, value, how, _first_diff(base, now)))]
+    return []
+
+
+def alias_user_specs():
+    """Declarations of the program's own that section (g) runs on as well (signed / unsigned / scaled, with flags)."""
+    out = []
+    for w in (1, 2, 3, 4, 8):
+        for signed in (False, True):
+            out.append(_limit_spec(w, signed, True, True, None, None))
+        out.append(_limit_spec(w, False, False, True, None, (1 << 8 * w) - 3))
+    for w in (2, 5):
+        out.append(_limit_spec(w, False, True, True, None, None, scaled=True))
+    return out
+
+
+def _alias_target(case):
+    """-> (cls, row, key or None) of an alias case, or (None, row, key)"""
+    if "spec" in case:
+        cls, row = _limit_class(case["spec"])
+        return cls, row, None
+    cls, row = _resolve(case["key"])
+    if row is None:
+        raise ValueError("no table row " + case["key"])
+    if cls is None or len(cls.locations) != row["width"]:
+        return None, row, case["key"]
+    return cls, row, case["key"]
+
+
 # ------------------------------------------------------------------ run_case ----
 def run_case(case):
     op = case["op"]
@@ -1325,6 +1583,11 @@ def run_case(case):
         return _check_userlim(case["spec"], bytes(case["raw"]))
     if op == "declrules":
         return _check_declrules(case)
+    if op == "alias":
+        cls, row, key = _alias_target(case)
+        if cls is None:
+            return _check_layout(key)
+        return _check_alias(cls, row, key, case["arg"])
     raise ValueError(op)
 
 
@@ -1633,6 +1896,29 @@ def _shard(arg):
                classify=_declrules_labels)
         res.sample({"op": "declrules", "has_lock": False, "has_latch": True,
                     "decls": [{"locs": [[0x10, "NVM_RW"], [0x11, "NVM_RW_L"]]}]}, cls="declrules")
+    elif kind == "alias":         # (g) results / buffers edited by the caller afterwards
+        _, targets = arg
+        for t in targets:
+            case0 = {"op": "alias", "spec": t} if isinstance(t, dict) else {"op": "alias", "key": t}
+            cls, row, key = _alias_target(case0)
+            if cls is None:
+                continue
+            args = alias_args(row) + [["raw", list(raw)] for raw in _alias_probes(row)[:3]]
+            for a in args:
+                case = dict(case0, arg=a)
+                res.count()
+                if a[0] in ("lit", "raw"):
+                    res.nontrivial()
+                try:
+                    r = cls.value_to_raw(_alias_value(a)) if a[0] != "raw" else bytearray()
+                    res.hist["caller-edits:" + ("buffer-handed-in" if a[0] == "raw" else
+                                                "result-mutable" if _mutable(r) else "result-immutable")] += 1
+                except Exception:  # noqa
+                    res.hist["caller-edits:not-encodable"] += 1
+                for sig, msg in _check_alias(cls, row, key, a):
+                    res.violation(sig, case, msg)
+        res.label("caller-edits")
+        res.sample({"op": "alias", "key": "BANK_206.LightSourceStartCounterResettable", "arg": ["lit", "TMASK"]}, cls="alias")
     else:
         raise ValueError(kind)
     return res
@@ -1680,6 +1966,9 @@ def run(ctx):
     for w in (2, 3, 5):
         light.append(("userlim", w, True, seed * 1000 + 960 + w, 0))
     heavy.append(("declrules", seed * 1000 + 970, 400 if q else 8000))
+    targets = list(keys) + alias_user_specs()
+    for i in range(0, len(targets), 30):
+        light.append(("alias", targets[i:i + 30]))
     ctx.pmap(_shard, hist + heavy + light)
     r = ctx.result
     r.exhaustive = False
@@ -1687,6 +1976,9 @@ def run(ctx):
     r.extra["disagreements_recorded"] = len(RM.DISAGREEMENTS)
     r.extra["value_classes_in_library"] = len(L["classes"])
     r.extra["complete_for_widths"] = [1, 2]
+    r.extra["two_byte_values_enumerated_completely"] = [k for k in keys if _resolve(k)[1]["width"] == 2]
+    r.extra["byte_position_patterns"] = {"edge_bytes": list(RM.EDGE_BYTES), "per_width": {
+        str(n): len(RM.byte_position_patterns(n)) for n in range(3, 9)}}
     r.extra["stride_3_byte"] = stride3
     r.extra["hypothesis_examples_per_wide_value"] = n_hyp
     r.extra["synthetic_signed_values"] = sorted(S["rows"])
